@@ -372,12 +372,67 @@ func meshCase(d meshDesc) hx.Case {
 	return c
 }
 
+// headerTexts: the 80 header bytes of a binary STL are free-form; exporters put text there.  Each entry is padded
+// to 80 bytes with the given filler (or cut to 80).  Everything an ASCII-STL sniffer or a C-string routine could key
+// on: the ASCII keywords in any case, leading blanks, NULs, 8-bit bytes, all-one-value headers.
+var headerTexts = []struct {
+	text string
+	fill byte
+}{
+	{"solid", 0}, {"solid ", ' '}, {"solid part1", 0}, {"solid Exported from CAD 1.2 (binary)", ' '},
+	{"SOLID", 0}, {"Solid model", ' '}, {"solidworks binary stl", 0}, {" solid x", ' '}, {"\t\tsolid", 0},
+	{"\r\n solid name\n", ' '}, {"\nsolid\nfacet normal 0 0 1\nouter loop\nvertex 0 0 0\n", ' '}, {"   ", ' '},
+	{"facet normal 0 0 0", 0}, {"endsolid", 0}, {"endsolid name", ' '}, {"binary stl; not solid", 0}, {"xsolid", 0},
+	{"soli", 0}, {"s\x00olid", 0}, {"solid\x00\x00\x00after nul", 0}, {"\x00solid", 0}, {"COLOR=\xff\x80\x00\xff,MATERIAL=\x01\x02\x03\x04", 0},
+	{"Teil \u00e4\u00f6\u00fc \u2014 \u7acb\u4f53 solid", ' '}, {"\u00a0solid", 0}, {"\xef\xbb\xbfsolid", 0}, {"", 0xFF}, {"", ' '}, {"", '\n'},
+	{"", 's'}, {"STLB ATF 2.0.0.9000 COLOR=\xa0\xa0\xa0\xff", ' '}, {"ply\nformat binary_little_endian 1.0", 0}, {"#!/bin/sh", 0},
+	{"solid " + "0123456789012345678901234567890123456789012345678901234567890123456789ABCDEFGHIJ", 0},
+}
+
+func headerOf(i int) [80]byte {
+	var h [80]byte
+	e := headerTexts[i%len(headerTexts)]
+	for j := range h {
+		h[j] = e.fill
+	}
+	copy(h[:], e.text)
+	return h
+}
+
+func genHeader(r *hx.Rng, h []byte) string {
+	switch r.Intn(4) {
+	case 0:
+		for i := range h {
+			h[i] = byte(r.Intn(256))
+		}
+		return "random"
+	case 1:
+		// printable text, random words from the ASCII-STL vocabulary, random blanks in front
+		words := []string{"solid", "SOLID", "facet", "normal", "outer", "loop", "vertex", "endloop", "endfacet", "endsolid", "binary", "STL", "part", "0", "1.5e-3", "\u00e9"}
+		t := ""
+		for k := r.Intn(4); k > 0; k-- {
+			t += string(" \t\r\n"[r.Intn(4)])
+		}
+		for len(t) < 80 && !r.Chance(1, 8) {
+			t += words[r.Intn(len(words))] + string(" \n\x00"[r.Intn(3)])
+		}
+		fill := []byte{0, ' ', 0xFF}[r.Intn(3)]
+		for i := range h {
+			h[i] = fill
+		}
+		copy(h, t)
+		return "text"
+	default:
+		hh := headerOf(r.Intn(len(headerTexts)))
+		copy(h, hh[:])
+		return "template"
+	}
+}
+
 func genBytes(r *hx.Rng) []byte {
 	nt := r.Range(0, 8)
 	b := make([]byte, 84+50*nt)
-	for i := 0; i < 80; i++ {
-		b[i] = byte(r.Intn(256))
-	}
+	genHeader(r, b[:80])
 	binary.LittleEndian.PutUint32(b[80:], uint32(nt))
 	for t := 0; t < nt; t++ {
 		off := 84 + 50*t
@@ -845,7 +900,20 @@ func main() {
 		small = append(small, readCase(b), bytesCase(b))
 		small = append(small, readCase(make([]byte, 83)), readCase(nil))
 	}
-	// systematic index shapes (all of them in both tiers: they are small)
+	// systematic header stream: every header template on a complete two-record file (one stored normal, one zero
+	// normal) through Read/Write and ReadMesh, and on an empty file through Read/Write
+	for i := range headerTexts {
+		h := headerOf(i)
+		b := synthFile(bigFileDesc{N: 2, Seed: uint64(i)})
+		copy(b, h[:])
+		for k := 84; k < 96; k++ {
+			b[k] = 0
+		}
+		e := make([]byte, 84)
+		copy(e, h[:])
+		run.Count("header-stream")
+		small = append(small, bytesCase(b), readCase(b), bytesCase(e))
+	}
 	for _, d := range shapeDescs() {
 		run.Count("shape-stream")
 		if len(d.Idx) == len(d.Pos) {
